@@ -43,6 +43,12 @@ theorem not_unknown_of_ptr {n : Nat} (h : 192 ≤ n) : is_unknown n = false := b
 theorem link_in_packet {l len : Nat} (h : l < len) : link_beyond l len = false := by simp [link_beyond]; omega
 theorem link_not_self {l off : Nat} (h : l < off) : link_self l off = false := by simp [link_self]; omega
 
+/-- the 14-bit pointer target, for a pointer byte `192 ≤ b0 ≤ 255` -/
+theorem link_eq {b0 b1 : Nat} (h1 : 192 ≤ b0) (h2 : b0 < 256) : link b0 b1 = (b0 - 192) * 256 + b1 := by
+  have : b0 &&& 63 = b0 % 64 := Nat.and_two_pow_sub_one_eq_mod b0 6
+  simp only [link, this]
+  omega
+
 theorem name_short {n : Nat} (h : name_too_long n = false) : n ≤ 253 := by
   simp [name_too_long] at h; omega
 
